@@ -9,7 +9,7 @@ from common import driver, proof_stage
 import subgen
 
 MODULES = ["CobyqaVerif.Props.C15", "CobyqaVerif.Props.C15Loop", "CobyqaVerif.Props.C15Improve", "CobyqaVerif.Props.C15ImproveFast",
-           "CobyqaVerif.Props.C15ImproveReal", "CobyqaVerif.Props.C15Ctcg", "CobyqaVerif.Props.C16Ntcg"]
+           "CobyqaVerif.Props.C15ImproveReal", "CobyqaVerif.Props.C15Ctcg", "CobyqaVerif.Props.C15CtcgImprove", "CobyqaVerif.Props.C16Ntcg"]
 LEVEL = "proof"
 OWN = ("bounds", "radius", "inequality", "null-space")
 
@@ -149,14 +149,18 @@ def tcg_correspondence(rng, n_gen, nmax=4, whole=False):
 
 
 def ctcg_correspondence(rng, n_gen, nmax=4):
-    """Tie of lean/CobyqaVerif/Alg/Ctcg.lean (the loop the theorems of Props/C15Ctcg.lean are about) to the code: the model
-    is run in exact rational arithmetic (DriverAlg `ctcg`, projection by exact Gram-Schmidt, checked) on the inputs given
-    to the real constrained_tangential_byrd_omojokun with improve_tcg=False; the two steps must agree to 1e-6 relative."""
+    """Tie of lean/CobyqaVerif/Alg/Ctcg.lean and Alg/CtcgImprove.lean (`cfull`, the function the theorems of
+    Props/C15Ctcg.lean, C16Ctcg.lean and C15CtcgImprove.lean are about) to the code: the model is run in exact rational
+    arithmetic (DriverAlg `ctcg`, projection by exact Gram-Schmidt, checked) on the inputs given to the real
+    constrained_tangential_byrd_omojokun, with improve_tcg as the case says (both values occur); the two steps must agree to
+    1e-6 relative."""
     import warnings
     from fractions import Fraction as Fr
     import exact
     import cobyqa.subsolvers as S
     cases = [c for c in (subgen.gen(rng, "constrained_tangential") for _ in range(n_gen)) if c["n"] <= nmax]
+    # a share of problems that reach the second phase (non-convex models, rows with moderate slack)
+    cases += [subgen.gen_improve(rng, 2, nmax) for _ in range(max(10, n_gen // 4))]
     # an all-zero row is counted by the code's pivoted QR as a working constraint of full rank (|r_kk| = 0 >= 10 eps n * 0),
     # which removes a direction of the null space that an exact projection keeps: the code's projection still lies in the
     # null space (what the theorems need) but is not THE orthogonal projection the driver computes - such inputs are
@@ -173,10 +177,10 @@ def ctcg_correspondence(rng, n_gen, nmax=4):
     def line(c):
         n = c["n"]
         xl, xu = np.minimum(c["xl"], 0.0), np.maximum(c["xu"], 0.0)
-        return (f"ctcg {n} {len(c['bub'])} {c['aeq'].shape[0]} {4 * n + 12} | {rl(c['g'])} ; {rl(c['H'])} ; {ol(xl)} ; {ol(xu)} ; "
+        return (f"ctcg {n} {len(c['bub'])} {c['aeq'].shape[0]} {4 * n + 12} {n + 2} {int(bool(c['improve_tcg']))} | {rl(c['g'])} ; {rl(c['H'])} ; {ol(xl)} ; {ol(xu)} ; "
                 f"{rl(c['aub'])} ; {rl(np.maximum(c['bub'], 0.0))} ; {rl(c['aeq'])} ; {exact.rs(Fr(float(c['delta'])))}")
     ans = _stream_driver([line(c) for c in cases], 12)
-    agree, skipped, mism = 0, 0, []
+    agree, skipped, mism, second = 0, 0, [], 0
     for c, a in zip(cases, ans):
         if a is None:
             skipped += 1
@@ -184,17 +188,18 @@ def ctcg_correspondence(rng, n_gen, nmax=4):
         with warnings.catch_warnings(), np.errstate(all="ignore"):
             warnings.simplefilter("ignore")
             s = S.constrained_tangential_byrd_omojokun(c["g"], lambda v: c["H"] @ v, c["xl"].copy(), c["xu"].copy(), c["aub"].copy(), c["bub"].copy(),
-                                                       c["aeq"].copy(), c["delta"], False, improve_tcg=False)
+                                                       c["aeq"].copy(), c["delta"], False, improve_tcg=bool(c["improve_tcg"]))
         if not a.startswith("ok"):
             mism.append((c, "driver answered " + a[:40]))
             continue
+        second += int(a.startswith("ok1"))
         mdl = np.array([float(Fr(t)) for t in a.split()[1:]])
         sc = max(float(np.linalg.norm(s)), float(np.linalg.norm(mdl)), 1e-300)
         if float(np.linalg.norm(mdl - s)) <= 1e-6 * sc:
             agree += 1
         else:
-            mism.append((c, f"exact model step {mdl.tolist()} vs implementation {np.asarray(s).tolist()}"))
-    return {"cases": len(cases), "agree": agree, "skipped_too_expensive": skipped, "mismatches": len(mism),
+            mism.append((c, f"exact model step {mdl.tolist()} vs implementation {np.asarray(s).tolist()} (improve_tcg={c['improve_tcg']})"))
+    return {"cases": len(cases), "agree": agree, "skipped_too_expensive": skipped, "mismatches": len(mism), "entered_the_second_phase": second,
             "with_inequality_rows": sum(1 for c in cases if len(c["bub"])), "with_equality_rows": sum(1 for c in cases if c["aeq"].shape[0]),
             "left_out_because_of_an_all_zero_row": n_zero}, mism
 
